@@ -39,6 +39,13 @@ var c09Options = []string{"focus", "ignore", "hide", "show", "show_from", "tagfo
 
 func c09Value(t *simrt.Tape) string {
 	K := simrt.KGen
+	if t.Bool(K, 12) {
+		if t.Bool(K, 50) {
+			return dictStr(t, "main")
+		}
+		// a multi-byte or ASCII string whose length sits at a threshold of the code
+		return strings.Repeat([]string{"x", "é", "日"}[t.Choose(K, 3)], dictSize(t, 600, 81))
+	}
 	switch t.Choose(K, 4) {
 	case 0:
 		return c09Noise[t.Choose(K, len(c09Noise))]
